@@ -482,7 +482,25 @@ def _run_case(case, ctx):
             raise core.Violation(
                 f'as_list-{typ}',
                 f"{cls.__name__}({spec!r}).as_list() = {got!r}, expected {exp_here!r}")
+        # the numeric form handed out belongs to the caller (retrieve - edit - send back is the
+        # documented workflow): editing it in place must not leak into the interval itself nor
+        # into any other export of the same endpoints
+        for rng_ in got:
+            for endpoint in rng_:
+                if isinstance(endpoint, list):
+                    for k in range(len(endpoint)):
+                        endpoint[k] = 0
+                    endpoint.append(-1)
+        del got[:]
         objs.append(obj)
+    for spec, obj in zip(notations, objs):
+        again = obj.as_list()
+        ctx.count('exports_after_inplace_edit')
+        if again != expected:
+            raise core.Violation(
+                f'as_list-aliased-{typ}',
+                f"{cls.__name__}({spec!r}).as_list() = {again!r} after an earlier export had been "
+                f"edited in place by its owner, expected {expected!r}")
     # round trips
     obj = objs[0]
     for back_spec, what in ((obj.as_list(), 'as_list'), (obj.as_string(), 'as_string')):
